@@ -61,13 +61,40 @@ def fault_env(log):
         status = Agg('ExitStatus', [success, some(0) if how == 0 else (some(1) if how == 1 else none()), some(9) if how == 2 else none()])
         return ok(Agg('Output', [status, OutBytes(kind), VecV()]))
 
+    def child_wait(it, child, how_):
+        # waiting without draining stdout: a formatter that has more to print than the pipe buffer holds never exits
+        if log.get('spawn') and 'stdout_read' not in log:
+            big = it.truth(it.fresh('output_exceeds_pipe_buffer', 'bool'))
+            log['big'] = big
+            if big and log.get('write', True):
+                raise Panic('HANG: waits for the formatter before reading its output (output larger than the pipe buffer)')
+        r = wait_with_output(it, child)
+        out_ = r.fields[0]
+        log['pending_stdout'] = out_.fields[1]
+        return ok(out_.fields[0])
+
+    def child_read(it, stdout, buf):
+        log['stdout_read'] = True
+        b = log.get('pending_stdout')
+        if b is None:
+            # reading before waiting: the harness decides the content now
+            kind = it.concretize(it.fresh('stdout_kind', 8), [0, 1, 2])
+            b = OutBytes(kind or 0)
+            log['stdout'] = b.kind
+        if b.kind == 2:
+            return err(Opaque('io::Error(InvalidData)'))
+        if buf is not None:
+            buf.set(OutStr(b.kind == 0))
+        return ok(0 if b.kind == 0 else 1)
+
     def from_utf8(it, b):
         if not isinstance(b, OutBytes):
             raise Unsupported('from_utf8 of something that is not the child stdout')
         if b.kind == 2:
             return err(Opaque('FromUtf8Error'))
         return ok(OutStr(b.kind == 0))
-    return {'spawn': spawn, 'write_all': write_all, 'wait_with_output': wait_with_output, 'from_utf8': from_utf8}
+    return {'spawn': spawn, 'write_all': write_all, 'wait_with_output': wait_with_output, 'from_utf8': from_utf8,
+            'child_wait': child_wait, 'child_read': child_read}
 
 
 # ---- native replay -----------------------------------------------------------------------------------------------------
@@ -108,7 +135,7 @@ def native_run(ctx, scenario, big):
             os.chmod(p, 0o755)
         o = Oracle(env={'PATH': d + ':/bin:/usr/bin'})
         src = '@fragment fn main() {}\n' + ('// ' + 'x' * 100 + '\n') * (3000 if big else 0)
-        r = o.gen(src, {'rustfmt': True})
+        r = o.req(cmd='gen', wgsl=src, options={'rustfmt': True}, include=None, _timeout=30)      # a hang is a finding, not a wait
         o.close()
         r0 = ctx.S.oracle.gen(src, {'rustfmt': False})
         return r, r0
@@ -151,7 +178,9 @@ def run(ctx):
         should_format = log.get('spawn') and log.get('write') and log.get('success') and log.get('stdout') == 1
         bad = None
         if kind == 'panic':
-            bad = f'panics ({out[:80]})'
+            bad = f'hangs ({out[:110]})' if out.startswith('HANG') else f'panics ({out[:80]})'
+            if out.startswith('HANG'):
+                sc = 'working'
         elif should_format:
             if not isinstance(out, OutStr):
                 bad = 'formatter succeeded but its output was not returned'
@@ -232,7 +261,7 @@ def native_all(ctx, seen=None):
     """every fault scenario on the real build, below and above the pipe buffer: all must return the program"""
     seen = {} if seen is None else seen
     for sc in FAKES:
-        for big in ((False, True) if ctx.tier == 'thorough' or sc in ('exit0_without_reading', 'killed', 'killed_after_partial_output') else (False,)):
+        for big in ((False, True) if ctx.tier == 'thorough' or sc in ('exit0_without_reading', 'killed', 'killed_after_partial_output', 'working') else (False,)):
             r, r0 = native_run(ctx, sc, big)
             good = 'ok' in r and 'ok' in r0 and same_program(ctx, r['ok'], r0['ok'])
             ctx.sample({'scenario': sc, 'output_over_64KiB': big, 'returns_same_program': good})
